@@ -181,3 +181,4 @@ def _generateId(self: Obj("PingIqProtocolEntity"), short: Bool) -> Str:
     # called on an instance of a SUBCLASS (every entity is one): it is the counter of the base class that advances, by exactly one
     ensures(ProtocolEntity._ProtocolEntity__ID_GEN == old(ProtocolEntity._ProtocolEntity__ID_GEN) + 1)
     ensures(implies(short, result == str(ProtocolEntity._ProtocolEntity__ID_GEN)))
+    ensures(implies(not short, result == str(event_result("time.time", 0)) + "-" + str(ProtocolEntity._ProtocolEntity__ID_GEN)))
